@@ -127,6 +127,19 @@ func genUpdater(rng *rand.Rand) input {
 	if rng.Intn(5) == 0 {
 		in.PassHosts = []string{hosts[rng.Intn(2)]}
 	}
+	if oauth && rng.Intn(3) == 0 {
+		// the oauth prefix as a redirect-only path, alone or on a host sorted before the real one
+		in.CrossNS = rng.Intn(2) == 0
+		for _, pfx := range []string{"/oauth2", "/auth2"} {
+			h := pick(rng, []string{"a0.local", "a0.local", hosts[0]})
+			if !used[h+pfx] && rng.Intn(2) == 0 {
+				used[h+pfx] = true
+				in.Redirects = append(in.Redirects, upath{Host: h, Path: pfx, Ing: -1})
+			}
+		}
+	} else if rng.Intn(6) == 0 {
+		in.CrossNS = true
+	}
 	// hosts first (any order), then backends (any order): what the converter does, where
 	// the order inside each group is the iteration order of a Go map
 	hs := map[string]bool{}
@@ -213,6 +226,16 @@ func updaterCorpus() []input {
 				[]ubackend{{Name: "app1", Paths: []upath{{"a.local", "/", 0}}}, {Name: "app2", Paths: []upath{{"b.local", "/", 1}}}},
 				"host:a.local", "host:b.local", "backend:app1")
 			in.Calls = append(in.Calls, call{Kind: "commit"}, call{Kind: "backend", Name: "app2"})
+			return in
+		}(),
+		// oauth whose prefix only exists as a redirect-only path, cross namespace allowed: a path
+		// without backend is never the oauth2 proxy, the declaring path stays denied
+		func() input {
+			in := std(nil, []ingIn{{Name: "ing1", Ann: annOf(kOAuth, "oauth2_proxy")}, {Name: "ing2"}},
+				[]ubackend{{Name: "app1", Paths: []upath{{"h1.local", "/", 0}, {"h1.local", "/pub", 1}}}},
+				"host:h1.local", "backend:app1")
+			in.CrossNS = true
+			in.Redirects = []upath{{Host: "a0.local", Path: "/oauth2", Ing: -1}}
 			return in
 		}(),
 		// frontend placement lost to a sibling of the same host
@@ -429,6 +452,14 @@ func runUpdater(in input, scratch string) *updObs {
 			if up.Ing >= 0 {
 				hostIngs[up.Host] = append(hostIngs[up.Host], up.Ing)
 			}
+		}
+	}
+	p.Options.DynamicConfig.CrossNamespaceServices = in.CrossNS
+	// redirect-only host paths: Host.AddRedirect, a path without backend (redirect-to)
+	for _, rp := range in.Redirects {
+		hc.Hosts().AcquireHost(rp.Host).AddRedirect(rp.Path, match, "http://other.example/x")
+		if _, ok := hmap[rp.Host]; !ok {
+			hmap[rp.Host] = builder.NewMapper()
 		}
 	}
 	// ssl-passthrough hosts: their non root paths are http paths like the others
